@@ -488,12 +488,15 @@ theorem C06_close_no_panic_reachable (rt : Router) (h : Router.Reachable rt)
 
 /-- "ANSWERS LATER ATTACH ATTEMPTS WITH AN ERROR": a closed router (closed flag set, table empty —
     what `.close` establishes, `C06_close_only_own_sessions`; the two go together in every reachable
-    router, `C06_closed_realms_empty`) is a fixed point: EVERY later operation (join, session
-    message / drop / stall / resume, tick, rnd, a second Close, RemoveRealm, AddRealm) leaves the
-    router state unchanged, makes nothing observable (no output, no closure, no panic), and is
-    answered `refused` exactly when it is an attach attempt — every `.join`, every `.addRealm`. -/
+    router, `C06_closed_realms_empty`) is a fixed point up to the clock: EVERY later operation (join,
+    session message / drop / stall / resume, tick, rnd, a second Close, RemoveRealm, AddRealm) leaves
+    the router state unchanged — except that time goes on: `.tick ms` adds `ms` to the router's clock
+    `now` (`ROp.elapsed`: `ms` for `.tick ms`, 0 otherwise) —, makes nothing observable (no output,
+    no closure, no panic), and is answered `refused` exactly when it is an attach attempt — every
+    `.join`, every `.addRealm`. -/
 theorem C06_closed_forever (rt : Router) (hc : rt.closed = true) (hr : rt.realms = []) :
-    (∀ op, (rt.step op).2 = rt ∧ (rt.step op).2.closed = true ∧ (rt.step op).2.realms = [] ∧
+    (∀ op, (rt.step op).2 = { rt with now := rt.now + op.elapsed } ∧
+      (rt.step op).2.closed = true ∧ (rt.step op).2.realms = [] ∧
       (rt.step op).1.out = [] ∧ (rt.step op).1.closed = [] ∧ (rt.step op).1.panic = none ∧
       (rt.step op).1.refused = isAttach op) ∧
     (∀ name k l d ro c, (rt.step (.join name k l d ro c)).1.refused = true) ∧
@@ -504,20 +507,23 @@ theorem C06_closed_forever (rt : Router) (hc : rt.closed = true) (hr : rt.realms
   exact ⟨h1, by rw [h1]; exact hc, by rw [h1]; exact hr, h2, h3, h4, h5⟩
 
 /-- The combined form: after `Router.Close`, whatever operations follow (`ops`, any list), the router
-    is still the closed router with the empty table, and the next operation `op` produces nothing and
-    is refused iff it is an attach attempt. -/
+    is still the closed router with the empty table — its clock advanced by the ticks among `ops`
+    (`elapsedAll ops`, the sum of their `ROp.elapsed`), nothing else changed —, and the next
+    operation `op` produces nothing and is refused iff it is an attach attempt. -/
 theorem C06_close_is_final (rt : Router) (ops : List ROp) (op : ROp) :
     let rt' := (rt.step .close).2
-    runROps rt' ops = rt' ∧ (runROps rt' ops).closed = true ∧ (runROps rt' ops).realms = [] ∧
-    ((runROps rt' ops).step op).2 = rt' ∧
+    runROps rt' ops = { rt' with now := rt.now + elapsedAll ops } ∧
+    (runROps rt' ops).closed = true ∧ (runROps rt' ops).realms = [] ∧
+    ((runROps rt' ops).step op).2 = { rt' with now := rt.now + elapsedAll ops + op.elapsed } ∧
     ((runROps rt' ops).step op).1.out = [] ∧ ((runROps rt' ops).step op).1.closed = [] ∧
     ((runROps rt' ops).step op).1.panic = none ∧ ((runROps rt' ops).step op).1.refused = isAttach op := by
   intro rt'
   have hc : rt'.closed = true := rfl
   have hr : rt'.realms = [] := rfl
-  have e := runROps_closed_empty hc hr ops
+  have e : runROps rt' ops = { rt' with now := rt.now + elapsedAll ops } := runROps_closed_empty hc hr ops
   rw [e]
-  obtain ⟨h1, h2, h3, h4, h5⟩ := step_closed_empty hc hr op
+  obtain ⟨h1, h2, h3, h4, h5⟩ :=
+    step_closed_empty (rt := { rt' with now := rt.now + elapsedAll ops }) hc hr op
   exact ⟨rfl, hc, hr, h1, h2, h3, h4, h5⟩
 
 -- non-vacuity: the initial router with one realm (the default realm "r"), closed; a join and an
@@ -540,7 +546,7 @@ theorem C06_closed_realms_empty (rt : Router) (h : Router.Reachable rt) : rt.clo
 /-- After `RemoveRealm A` (router invariant: distinct realm names, `Router.Inv`), with `rt'` the router
     left:
     * `A` is not in the table; the table is the old one without `A`; the session→realm map, the closed
-      flag, the template and the realm counter are unchanged; the invariant is kept;
+      flag, the template, the realm counter and the clock are unchanged; the invariant is kept;
     * an operation of a session that had joined `A` (message, drop, stall, resume) produces nothing and
       changes nothing;
     * the clock does not touch `A`: after `.tick ms` `A` is still absent, the table is the others each
@@ -550,11 +556,13 @@ theorem C06_closed_realms_empty (rt : Router) (h : Router.Reachable rt) : rt.clo
       under every history `ops` that contains no `AddRealm` with the URI `A`;
     * WITH a template `t` (router open, `A ≠ ""`, `Realm.create {t with uri := A} = some r0`): the join
       re-creates `A` FRESH from the template — the realm the session joins is `r0` (no client, no
-      subscription, no registration but the meta procedures), not the removed realm's state. -/
+      subscription, no registration but the meta procedures; its publication-id base and its clock
+      are the router's: `pubCount := created * 1000000`, `now := rt.now`, time being global), not the
+      removed realm's state. -/
 theorem C06_removed_realm_refuses (rt : Router) (hi : rt.Inv) (A : String) :
     let rt' := (rt.step (.removeRealm A)).2
     rt'.realm? A = none ∧ rt'.realms = rt.others A ∧ rt'.sessRealm = rt.sessRealm ∧ rt'.closed = rt.closed ∧
-    rt'.template = rt.template ∧ rt'.created = rt.created ∧ rt'.Inv ∧
+    rt'.template = rt.template ∧ rt'.created = rt.created ∧ rt'.now = rt.now ∧ rt'.Inv ∧
     (∀ k op, rt.realmOf k = some A → rt'.step (.sess k op) = ({}, rt')) ∧
     (∀ ms, (rt'.step (.tick ms)).2.realm? A = none ∧
       (rt'.step (.tick ms)).2.realms = (rt.others A).map (fun q => (q.1, (q.2.step (.tick ms)).2)) ∧
@@ -568,16 +576,16 @@ theorem C06_removed_realm_refuses (rt : Router) (hi : rt.Inv) (A : String) :
     (∀ t r0, rt.template = some t → Realm.create { t with uri := A } = some r0 → (rt.closed || A == "") = false →
       ∀ k l d ro c,
         rt'.step (.join A k l d ro c) =
-          (merge {} (({ r0 with pubCount := rt.created * 1000000 } : Realm).step (.join k l d ro c)).1,
-           { ({ rt' with realms := rt'.realms ++ [(A, { r0 with pubCount := rt.created * 1000000 })],
+          (merge {} (({ r0 with pubCount := rt.created * 1000000, now := rt.now } : Realm).step (.join k l d ro c)).1,
+           { ({ rt' with realms := rt'.realms ++ [(A, { r0 with pubCount := rt.created * 1000000, now := rt.now })],
                          created := rt.created + 1 } : Router).setRealm A
-               (({ r0 with pubCount := rt.created * 1000000 } : Realm).step (.join k l d ro c)).2 with
+               (({ r0 with pubCount := rt.created * 1000000, now := rt.now } : Realm).step (.join k l d ro c)).2 with
              sessRealm := rt.sessRealm ++ [(k, A)] })) := by
   intro rt'
   have hf := remove_fields rt A
-  obtain ⟨f1, f2, f3, f4, f5, f6⟩ := hf
+  obtain ⟨f1, f2, f3, f4, f5, f6, f7⟩ := hf
   have hi' : rt'.Inv := hi.step (.removeRealm A) trivial
-  refine ⟨f1, f2, f3, f4, f5, f6, hi', ?_, ?_, ?_, ?_⟩
+  refine ⟨f1, f2, f3, f4, f5, f6, f7, hi', ?_, ?_, ?_, ?_⟩
   · intro k op hk
     have hk' : rt'.realmOf k = some A := by unfold realmOf; rw [f3]; exact hk
     exact step_sess_gone hk' f1 op
@@ -594,13 +602,13 @@ theorem C06_removed_realm_refuses (rt : Router) (hi : rt.Inv) (A : String) :
     exact ⟨a1, fun k l d ro c => step_join_absent a1 a2 k l d ro c⟩
   · intro t r0 ht hcr hopen k l d ro c
     have he := ensureRealm_template f1 (f5.trans ht) hcr
-    rw [f6] at he
-    have hopen' : (rt'.closed || A == "") = false := by rw [f4]; exact hopen
-    have hrr : (rt'.ensureRealm A).realm? A = some { r0 with pubCount := rt.created * 1000000 } := by
+    have hrr : (rt'.ensureRealm A).realm? A = some { r0 with pubCount := rt'.created * 1000000, now := rt'.now } := by
       rw [he]; exact realm?_append_new f1 _ _
+    rw [f6, f7] at he hrr
+    have hopen' : (rt'.closed || A == "") = false := by rw [f4]; exact hopen
     rw [step_join_some hopen' hrr, he]
     show (_, ({ Router.setRealm _ A _ with sessRealm := rt'.sessRealm ++ [(k, A)] } : Router)) = _
-    rw [f3]
+    rw [f3, f7]
 
 -- non-vacuity: the initial router with the default realm "r"; the realm removed: a join to it is refused
 example : ∃ rt, Router.create [{}] = some rt ∧ rt.Inv ∧ (rt.realm? "r").isSome = true ∧ rt.template = none ∧
@@ -617,7 +625,7 @@ example : ∃ rt, Router.create [{}] = some rt ∧ rt.Inv ∧ (rt.realm? "r").is
       rw [h] at this
       exact Option.some.inj this
     refine ⟨rt, rfl, create_inv h, hs, ht, ?_⟩
-    rw [((C06_removed_realm_refuses rt (create_inv h) "r").2.2.2.2.2.2.2.2.2.1 ht).1]
+    rw [((C06_removed_realm_refuses rt (create_inv h) "r").2.2.2.2.2.2.2.2.2.2.1 ht).1]
 
 /-! ## The other realms -/
 
